@@ -24,7 +24,7 @@ _REC = data.Recording(path="a.wav", duration=1000.0, channels=1, samplerate=8000
 
 def _run(case, u):
     clip = data.Clip(recording=_REC, start_time=case["s"] * u, end_time=case["e"] * u,
-                     uuid=uuid.UUID(int=1000 + case["s"] * 64 + case["e"]))
+                     uuid=uuid.UUID(int=1000 + case["s"] * 1024 + case["e"]))
     kw = {}
     if case["h"]:
         kw["hop"] = case["h"][0] * u
@@ -46,11 +46,13 @@ def execute(case):
 
 def random_cases(rng, tier):
     n = 1500 if tier == "quick" else 15000
-    for _ in range(n):
-        s = rng.randrange(0, 50)
-        ln = rng.randrange(0, 400)
-        d = rng.randrange(1, 60)
-        h = rng.choice([[], [d], [rng.randrange(1, 80)], [max(1, ln // rng.randrange(1, 9))]])
+    for k in range(n):
+        # a third of the clips lie late in a long recording (start up to ~10 h in 1/8 s ticks: 7-8 significant digits),
+        # where identifiers built from rounded bounds would collide
+        s = rng.randrange(0, 50) if k % 3 else rng.randrange(10_000, 300_000)
+        ln = rng.randrange(0, 400) if k % 3 else rng.randrange(1, 40)
+        d = rng.randrange(1, 60) if k % 3 else rng.randrange(1, 6)
+        h = rng.choice([[], [d], [rng.randrange(1, 80)], [max(1, ln // rng.randrange(1, 9))]]) if k % 3 else rng.choice([[1], [2], [d]])
         yield {"s": s, "e": s + ln, "d": d, "h": h, "inc": rng.random() < 0.5}
 
 def nontrivial(o):
